@@ -255,6 +255,21 @@ func (env *Env) c(e Expr) Val {
 		var trig []string
 		n.trig = &trig
 		body := n.c(x.Body)
+		// bound variables of reference type range over the objects that existed in the old (entry / pre-call) state
+		var guards []string
+		for _, qv := range x.Vars {
+			v := n.vars[qv.Name]
+			if v.Ty != nil && isRefType(v.Ty) {
+				guards = append(guards, sx("<=", v.T, env.old.allocTop))
+			}
+		}
+		if len(guards) > 0 {
+			if x.Forall {
+				body.T = smtImp(smtAnd(guards...), body.T)
+			} else {
+				body.T = smtAnd(append(guards, body.T)...)
+			}
+		}
 		q := "exists"
 		if x.Forall {
 			q = "forall"
